@@ -13,6 +13,30 @@ INF = float("inf")
 # ------------------------------------------------------------------------------------------
 # raw GLPK problem
 # ------------------------------------------------------------------------------------------
+def _observing(fn):
+    """Reading a model through its public accessors must not raise: an exception here (a reaction without its solver
+    variables, an identifier index that points nowhere) means the model is incoherent, which is a violation of the
+    state properties, not a harness error."""
+    import functools
+
+    @functools.wraps(fn)
+    def wrapper(model, *a, **kw):
+        try:
+            return fn(model, *a, **kw)
+        except PropertyViolation:
+            raise
+        except Exception as e:  # noqa: BLE001
+            import traceback
+
+            frames = [f for f in traceback.extract_tb(e.__traceback__) if "/cobra/" in f.filename]
+            at = f"{frames[-1].filename.split('/cobra/')[-1]}:{frames[-1].name}" if frames else "?"
+            where = kw.get("where") or "observe"
+            raise PropertyViolation(f"{where}:model-unreadable:{type(e).__name__}:{at}",
+                                    f"reading the model through its public accessors raised {type(e).__name__}: {str(e)[:200]} (in {at})")
+
+    return wrapper
+
+
 def glpk_readback(model) -> Dict[str, Any]:
     """Read the problem held by GLPK itself (not optlang's bookkeeping)."""
     import swiglpk as g
@@ -105,6 +129,7 @@ def _plain(o):
     return o
 
 
+@_observing
 def snapshot(model, with_solver: bool = True, with_tables: bool = True) -> Dict[str, Any]:
     from cobra.util.solver import linear_reaction_coefficients
 
@@ -221,6 +246,7 @@ def reorder_free(snap: Dict[str, Any]) -> Dict[str, Any]:
 # ------------------------------------------------------------------------------------------
 # audits
 # ------------------------------------------------------------------------------------------
+@_observing
 def audit_crossrefs(model, where: str = "audit") -> None:
     """Cross-reference consistency stated by C02 (raises PropertyViolation)."""
 
@@ -282,6 +308,7 @@ def audit_crossrefs(model, where: str = "audit") -> None:
                 bad("group-member", f"group {grp.id} holds {kind} {x.id!r} that is not an object of the model")
 
 
+@_observing
 def audit_solver(model, user_cons_vars: Optional[Dict[str, Any]] = None, where: str = "audit") -> None:
     """C01: the raw GLPK problem is exactly the flux-balance problem of the model (+ user additions).
 
